@@ -465,6 +465,11 @@ class UTPM(Ring, RawAlgorithmsMixIn):
             self._pow_real(x_data, r, y_data)
             return self.__class__(y_data)
 
+    def __ipow__(self,r):
+        # in place, like the other augmented assignments (a view of a buffer writes through)
+        self.data[...] = (self**r).data
+        return self
+
     def __rpow__(self,r):
         # log in (at least) double precision, also for python ints of any size and for
         # bases of a narrow numpy type (uint8, float16, float32, ...)
